@@ -104,8 +104,11 @@ def build_impl(variant='plain', keep=3):
         t = Timer()
         cflags, reconf = VARIANTS[variant]
         ex = ['--exclude', '.git', '--exclude', '*.o', '--exclude', '*.lo', '--exclude', '*.la',
-              '--exclude', '.libs', '--exclude', '/test', '--exclude', '/examples',
-              '--exclude', '/benchmarks', '--exclude', '/doc', '--exclude', '/MUT']
+              '--exclude', '.libs', '--exclude', '/MUT']
+        if not reconf:      # a fresh ./configure needs every Makefile.in of the tree
+            ex += ['--exclude', '/test', '--exclude', '/examples', '--exclude', '/benchmarks', '--exclude', '/doc']
+        else:
+            ex += ['--exclude', '/test/*/*.nc', '--exclude', '/doc/*.pdf']
         subprocess.check_call(['rsync', '-a'] + ex + [REPO + '/', dest + '/'])
         logf = os.path.join(dest, 'verif_build.log')
         with open(logf, 'w') as lf:
